@@ -18,6 +18,35 @@ CLAIMED = {
          "(marginal = sum, joint = marginal x conditional, ensemble layout).",
     design="§4 C16",
     technique="Lean 4 proof (induction over the length list) + model/implementation correspondence"),
+ "C04": dict(
+    text="Equality projections of all four types: membership, orthogonality of the residual, nearest point, idempotence, fixed points "
+         "and object-level = variable-level (both parametrisation flags) proved in Lean 4 for all d, m over any ordered field (hence the "
+         "executed rational model). Inequality projections: PSD feasibility, variational inequality, nearest point, idempotence and fixed "
+         "points proved in parameter space (incl. orthonormality of the Choi basis) for an exact eigen-decomposition and eps=0, with basis "
+         "completeness as an explicit hypothesis (named _partial). Model tied to the real code by 32 correspondence ops with numpy's eigh "
+         "result passed through; purity, idempotence, VI and KKT certificates are checked on the real code by the oracle.",
+    design="§4 C04, §9", technique="Lean 4 proof (affine projections; clip_vi for the PSD cone) + model/implementation correspondence with eigh pass-through"),
+ "C05": dict(
+    text="Dykstra loop as coded: invariant x+p+q=x0 for every recorded state (induction over sweeps), history consistency and stop rule, "
+         "stop value 0 => fixed point, fixed point => nearest point of the intersection and order independence, physical input returned "
+         "unchanged after two sweeps — Lean 4 theorems for all sizes and both orders. Convergence / termination below eps is NOT proved "
+         "(theorems named _partial); accuracy of the stopped iterate is certified per run by the oracle against an independent Dykstra "
+         "reference and the variational inequality. Whole runs are re-executed by the model from the implementation's recorded history.",
+    design="§4 C05, §9", technique="Lean 4 proof (loop invariant by induction, fixed-point VI argument) + history correspondence"),
+ "C12": dict(
+    text="Exact second-order Taylor identity of the weighted squared error (so gradient and Hessian are the derivatives), value formula, "
+         "fast = generic value and gradient given equal weights (squared error and relative entropy kernels), gradient of the relative "
+         "entropy is the derivative (Mathlib HasDerivAt) of the defining formula away from clipping (partial: unclipped formula), and wiring "
+         "theorems over the loss objects' cached fields as explicit state records incl. proved negation witnesses for the weighting-mode "
+         "defects. Relative-entropy Hessian and value-vs-formula are oracle-checked only. 16 correspondence ops incl. configuration histories.",
+    design="§4 C12, §9", technique="Lean 4 proof (algebraic Taylor identity, HasDerivAt, state records) + model/implementation correspondence"),
+ "C19": dict(
+    text="Covariance of the empirical distributions, MSE of the empirical distributions and of the linear estimate (variable mode and POVM "
+         "object mode) are proved in Lean 4 equal to the exact expectations over the multinomial law (defined by recursion on n; induction "
+         "proofs) for all n >= 1, all probability vectors and any number of schedules; Fisher matrix / Cramer-Rao formulas and the statistics "
+         "helpers proved against their textbook definitions. Model tied to the code by 19 correspondence ops incl. exact rational enumeration "
+         "of multinomial outcomes, and an enumeration oracle on all four tomography types.",
+    design="§4 C19, §9", technique="Lean 4 proof (induction on the sample size over an exact multinomial model) + correspondence incl. exact enumeration"),
 }
 PENDING_REASON = "check not built yet in this round (build order in DESIGN.md §8); not claimed until its Lean model, theorems and correspondence exist"
 
